@@ -4,12 +4,12 @@ decremented into temporary space, the result-one-limb-longer carry cases, the po
 mpz/mul_i.h (mpz_mul_ui) in lean/Mpir/Model/AllocSafeMpz2.lean; `mpz_and_alloc_safe`, `mpz_xor_alloc_safe`,
 `mpz_mul_ui_alloc_safe` for all heaps, allocations and alias ids.  Ops `as2_*` (harness/ops_allocsafe2.c) run the real function
 on objects of the GIVEN allocations and compare ALLOC(w), SIZ(w) and the value with the model's run (mpz_ior: mirrored and
-tied in every sign case and alias mode, no theorem yet)."""
+tied in every sign case and alias mode; theorem `_partial`: both operands non-negative)."""
 from genlib import *
 
 LEAN_MODULES = ["MpirProofs.Props.C04_allocsafe2"]
 THEOREMS = ["Mpir.AllocSafe." + t for t in (
-    "mpz_com_alloc_safe", "mpz_tdiv_q_2exp_alloc_safe", "mpz_and_alloc_safe", "mpz_xor_alloc_safe", "mpz_mul_ui_alloc_safe",
+    "mpz_com_alloc_safe", "mpz_tdiv_q_2exp_alloc_safe", "mpz_and_alloc_safe", "mpz_xor_alloc_safe", "mpz_mul_ui_alloc_safe", "mpz_ior_alloc_safe_partial",
     "Spec.com_spec", "Spec.tdiv_q_2exp_spec", "and_refines", "xor_refines", "cat_pp_wrote", "Wrote.wr", "Wrote.cat", "Den.wr")]
 TRUSTED = ["hand-written size-aware models lean/Mpir/Model/AllocSafeMpz2.lean (mpz/and.c, ior.c, xor.c, mul_i.h on the memory model of "
            "AllocSafe.lean; TMP_ALLOC blocks = blocks of their own that no variable points to; the element-wise loops "
